@@ -7,10 +7,14 @@ EXTENDS EventSigs, Json
 VersionsAll == AllVersions
 \* one room version per (ID format, key-validity rule, restricted joins, domainless) class
 SourceVersionsQuick == {"2", "4", "6", "11", "12"}
+\* batches: one room version per (ID format, key-validity rule, canonical JSON enforced) class
+BatchVersionsQuick == {"1", "4", "5", "6", "10", "12"}
+BatchLensQuick == {2}
+BatchLensThorough == {1, 2, 3}
 
 Emit ==
     Done => PrintT(ToJson([ver |-> ver, kind |-> ev.kind, via |-> ev.via, tsrv |-> ev.tsrv, asrv |-> ev.asrv,
                            esrv |-> ev.esrv, etype |-> TypeOf(ev), pres |-> pres, ktop |-> TopKeep(RedactionAlgo(ver)),
                            kcon |-> KeptCon(ver, ev), ktpi |-> KeptTpi(ver, ev), kkey |-> KeptKey(ver, ev), tm |-> tm, sig |-> sig, src |-> src, vol |-> vol, fail |-> fail, mapst |-> mapst, required |-> R,
-                           strict |-> StrictKeyValidity(ver), verdict |-> verdict]))
+                           strict |-> StrictKeyValidity(ver), maxts |-> MaxTS(ver), bt |-> bt, bres |-> bres, verdict |-> verdict]))
 =============================================================================
